@@ -804,3 +804,66 @@ def step_bound(ctx):
             ctx.ob('STEP-BOUND', t == '%s[%s]' % (tm, M.c), None,
                    'recorded time is the time of row c', f=f, node=n, key='rec-time',
                    why='recorded time is `%s`' % t)
+
+
+# ----------------------------------------------------------------- KEY-REBIND
+def key_rebind(ctx, which=(FB, FF)):
+    ctx.rule('KEY-REBIND', 'a per-class dictionary entry (key = class name, shared by measurement '
+             'objects of one class) is not read after the same loop has re-bound it to a value '
+             'of another kind, unless already-converted entries are skipped')
+    for M in _models(ctx, which):
+        f = M.f
+        n = 0
+        for lp in [s for s in M.post if isinstance(s, ast.For)] + \
+                [s for s in M.pre if isinstance(s, ast.For)]:
+            if norm_text(lp.iter) != 'measurements' or not isinstance(lp.target, ast.Name):
+                continue
+            el = lp.target.id
+            # names bound to the class-name key
+            keys = set()
+            for st in lp.body:
+                if isinstance(st, ast.Assign) and isinstance(st.targets[0], ast.Name) and \
+                        norm_text(st.value) == '%s.__class__.__name__' % el:
+                    keys.add(st.targets[0].id)
+            if not keys:
+                continue
+            stores, loads = [], []
+            for st in ast.walk(lp):
+                if isinstance(st, ast.Assign) and isinstance(st.targets[0], ast.Subscript) and \
+                        norm_text(st.targets[0].slice) in keys:
+                    stores.append(st)
+            rebound = [st for st in stores if isinstance(st.value, ast.Call) and
+                       (f.module.resolve(st.value.func, f.local_names()) or '').startswith(
+                           'pandas.')]
+            if not rebound:
+                continue
+            for st in rebound:
+                d = norm_text(st.targets[0].value)
+                k = norm_text(st.targets[0].slice)
+                # reads of the same entry earlier in the loop body
+                idx = lp.body.index(st) if st in lp.body else len(lp.body)
+                reads = []
+                for s2 in lp.body[:idx]:
+                    for x in ast.walk(s2):
+                        if isinstance(x, ast.Subscript) and isinstance(x.ctx, ast.Load) and \
+                                norm_text(x.value) == d and norm_text(x.slice) == k:
+                            reads.append(s2)
+                if not reads:
+                    continue
+                n += 1
+                first = lp.body.index(reads[0])
+                guarded = False
+                for s2 in lp.body[:first + 2]:
+                    if isinstance(s2, ast.If) and any(isinstance(x, ast.Continue)
+                                                      for x in ast.walk(s2)):
+                        t = norm_text(s2.test)
+                        if 'isinstance(' in t and 'DataFrame' in t or ' in ' in t:
+                            guarded = True
+                ctx.ob('KEY-REBIND', guarded, None,
+                       "%s: entry %s[%s] is skipped once converted" % (f.name, d, k), f=f,
+                       node=st, key='rebind-%s' % d,
+                       why="the loop over `measurements` reads %s[%s] (key = class name) and "
+                           "then re-binds it to a DataFrame: with two measurement objects of one "
+                           "class the second iteration reads the DataFrame (`if <DataFrame>` "
+                           "raises ValueError) - the filter cannot return" % (d, k))
+        ctx.floor('KEY-REBIND', n, 1, 're-bound per-class entries in %s' % f.name)
